@@ -165,6 +165,20 @@ def _c03_features(case):
 
 
 @predicate
+def c03_fixed_len_trailing_nul(case, out):
+    """FIXED_LEN_BYTE_ARRAY values are returned as a numpy 'S<n>' array, whose items lose their trailing NUL bytes."""
+    if not out["sig"].startswith("value|fixed5"):
+        return False
+    for rg in case["plan"]["row_groups"]:
+        for c in case["cols"]:
+            if c["kind"] == "fixed5":
+                for v in rg["data"].get(c["name"], []):
+                    if isinstance(v, dict) and v.get("hex", "").endswith("00"):
+                        return True
+    return False
+
+
+@predicate
 def c03_index_width(case, out):
     """cencoding.read_bitpacked keeps its bit buffer in 32 bits: dictionary index widths >= 25 decode wrongly."""
     f = _c03_features(case)
